@@ -564,10 +564,16 @@ func tcpAndWS(r *h.Run, rng interface{ Intn(int) int }) {
 		}()
 		_ = cuts
 		conn.SetReadTimeout(20 * time.Second)
+		limit := 0
+		if i%2 == 1 {
+			// the limit equals the largest packet: every packet must still arrive
+			limit = maxLen(bounds)
+			conn.SetReadLimit(int64(limit))
+		}
 		for k := range ps {
 			p, err := conn.Receive()
 			if err != nil {
-				r.Violation("tcp/receive", fmt.Sprintf("TCP: Receive #%d of %d failed: %v (chunks <= %d)", k, len(ps), err, maxChunk), map[string]interface{}{"sent": canons(ps)})
+				r.Violation("tcp/receive", fmt.Sprintf("TCP: Receive #%d of %d failed: %v (chunks <= %d, read limit %d, largest packet %d)", k, len(ps), err, maxChunk, limit, maxLen(bounds)), map[string]interface{}{"sent": canons(ps)})
 				break
 			}
 			if ref.Canon(p) != ref.Canon(ps[k]) {
@@ -640,7 +646,7 @@ func tcpAndWS(r *h.Run, rng interface{ Intn(int) int }) {
 				cutSets = append(cutSets, cuts)
 			}
 		}
-		for _, cuts := range cutSets {
+		for ci, cuts := range cutSets {
 			client, _, err := websocket.DefaultDialer.Dial("ws://"+ws.Addr().String()+"/", nil)
 			if err != nil {
 				r.Inconclusive("ws dial: " + err.Error())
@@ -659,11 +665,18 @@ func tcpAndWS(r *h.Run, rng interface{ Intn(int) int }) {
 				}
 			}()
 			conn.SetReadTimeout(20 * time.Second)
+			limit := 0
+			if (i/2+ci)%2 == 1 {
+				// the limit equals the largest packet: every packet must still
+				// arrive however the packets are spread over messages
+				limit = maxLen(bounds)
+				conn.SetReadLimit(int64(limit))
+			}
 			ok := true
 			for k := range ps {
 				p, err := conn.Receive()
 				if err != nil {
-					r.Violation("ws/receive", fmt.Sprintf("WebSocket: Receive #%d of %d failed: %v (message boundaries %v of %d bytes)", k, len(ps), err, cuts, len(stream)), map[string]interface{}{"sent": canons(ps), "stream_hex": h.Hex(stream)})
+					r.Violation("ws/receive", fmt.Sprintf("WebSocket: Receive #%d of %d failed: %v (message boundaries %v of %d bytes, read limit %d, largest packet %d)", k, len(ps), err, cuts, len(stream), limit, maxLen(bounds)), map[string]interface{}{"sent": canons(ps), "stream_hex": h.Hex(stream)})
 					ok = false
 					break
 				}
@@ -706,6 +719,86 @@ func tcpAndWS(r *h.Run, rng interface{ Intn(int) int }) {
 			}
 		}
 	}
+	// packets within the limit followed by one beyond it, in one message or
+	// several: the good ones arrive, the oversized one is refused
+	nover := r.Pick(12, 120)
+	for i := 0; i < nover; i++ {
+		wr := r.Rand(fmt.Sprintf("c03-ws-over-%d", i))
+		var ps []packet.Generic
+		for k, n := 0, 1+wr.Intn(3); k < n; k++ {
+			ps = append(ps, gen.Small(wr))
+		}
+		stream, bounds := encodeAll(ps)
+		limit := maxLen(bounds)
+		rl := limit - 2 + wr.Intn(3) // total length limit+1 .. limit+3 with a one-byte length field
+		if rl < 6 {
+			rl = 6 + wr.Intn(3)
+		}
+		over, _ := ref.Encode(gen.Sized(wr, packet.PUBLISH, rl, wr.Intn(64)))
+		if len(over) <= limit {
+			over, _ = ref.Encode(gen.Sized(wr, packet.PUBLISH, rl+3, wr.Intn(64)))
+		}
+		full := append(append([]byte(nil), stream...), over...)
+		var cuts []int
+		switch i % 3 {
+		case 1:
+			cuts = append(cuts, bounds...)
+		case 2:
+			for pos := 0; pos < len(full); {
+				pos += 1 + wr.Intn(9)
+				if pos < len(full) {
+					cuts = append(cuts, pos)
+				}
+			}
+		}
+		client, _, err := websocket.DefaultDialer.Dial("ws://"+ws.Addr().String()+"/", nil)
+		if err != nil {
+			r.Inconclusive("ws dial: " + err.Error())
+			return
+		}
+		conn, err := ws.Accept()
+		if err != nil {
+			r.Inconclusive("ws accept: " + err.Error())
+			return
+		}
+		conn.SetReadLimit(int64(limit))
+		go func() {
+			prev := 0
+			for _, c := range append(append([]int(nil), cuts...), len(full)) {
+				client.WriteMessage(websocket.BinaryMessage, full[prev:c])
+				prev = c
+			}
+		}()
+		conn.SetReadTimeout(20 * time.Second)
+		ok := true
+		for k := range ps {
+			p, err := conn.Receive()
+			if err != nil {
+				r.Violation("ws/receive-before-oversized", fmt.Sprintf("WebSocket: Receive #%d of %d failed: %v although only the last packet (%d bytes) exceeds the read limit %d (message boundaries %v of %d bytes)", k, len(ps), err, len(over), limit, cuts, len(full)), map[string]interface{}{"sent": canons(ps), "stream_hex": h.Hex(full)})
+				ok = false
+				break
+			}
+			if ref.Canon(p) != ref.Canon(ps[k]) {
+				r.Violation("ws/packet", fmt.Sprintf("WebSocket: received %s, sent %s (boundaries %v)", ref.Canon(p), ref.Canon(ps[k]), cuts), nil)
+				ok = false
+				break
+			}
+		}
+		if ok {
+			p, err := conn.Receive()
+			if err == nil {
+				r.Violation("ws/oversized-accepted", fmt.Sprintf("WebSocket: a %d-byte packet was delivered (%s) with read limit %d", len(over), ref.Canon(p), limit), nil)
+			} else if !errors.Is(err, packet.ErrReadLimitExceeded) {
+				r.Violation("ws/oversized-error", fmt.Sprintf("WebSocket: a %d-byte packet with read limit %d failed with %v, not ErrReadLimitExceeded", len(over), limit, err), nil)
+			}
+		}
+		client.Close()
+		conn.Close()
+		r.Eval()
+		r.NonTrivial(fmt.Sprintf("ws-over:%d:%d", i%3, len(ps)))
+	}
+	r.Count("ws_oversized_exchanges", int64(nover))
+
 	// a text message must produce an error
 	{
 		client, _, err := websocket.DefaultDialer.Dial("ws://"+ws.Addr().String()+"/", nil)
@@ -724,6 +817,19 @@ func tcpAndWS(r *h.Run, rng interface{ Intn(int) int }) {
 		}
 	}
 	r.Count("ws_exchanges", int64(nws))
+}
+
+// maxLen returns the length of the longest packet given the packet boundaries
+// of a stream.
+func maxLen(bounds []int) int {
+	m, prev := 0, 0
+	for _, b := range bounds {
+		if b-prev > m {
+			m = b - prev
+		}
+		prev = b
+	}
+	return m
 }
 
 func min(a, b int) int {
